@@ -17,6 +17,10 @@ inductive BodyRes where
   | raised                                             -- the body raised its own exception
   | starved                                            -- needed a backend read that never happened
 
+def setxSpec (s : BodySt) (k : Nat) (v : Int) (e p : Bool) : BodySt :=
+  if p = e then { s with ov := s.ov.put k v, del := s.del.filter (· ≠ k), results := s.results ++ [some 1] }
+  else { s with results := s.results ++ [some 0] }
+
 def specBody : List Cmd → List (Option Int) → BodySt → BodyRes
   | [], rd, s => .normal s rd
   | .set k v :: r, rd, s => specBody r rd { s with ov := s.ov.put k v, del := s.del.filter (· ≠ k) }
@@ -40,6 +44,25 @@ def specBody : List Cmd → List (Option Int) → BodySt → BodyRes
         | [] => .starved
         | x :: rd' => specBody r rd' { s with results := s.results ++ [x] }
   | .delete k :: r, rd, s => specBody r rd { s with ov := s.ov.erase k, del := k :: s.del.filter (· ≠ k) }
+  | .expire k :: r, rd, s =>
+    -- re-time `k`: nothing if it is deleted or already buffered (same value); else buffer what the backend holds, if anything
+    if k ∈ s.del then specBody r rd s
+    else match s.ov.get k with
+      | some _ => specBody r rd s
+      | none =>
+        match rd with
+        | [] => .starved
+        | none :: rd' => specBody r rd' s
+        | some v :: rd' => specBody r rd' { s with ov := s.ov.put k v }
+  | .setx k v e :: r, rd, s =>
+    -- set only if present (`e`) / only if absent: presence is the buffer's, else the deletion mark's, else the backend's
+    match s.ov.get k with
+    | some _ => specBody r rd (setxSpec s k v e true)
+    | none =>
+      if k ∈ s.del then specBody r rd (setxSpec s k v e false)
+      else match rd with
+        | [] => .starved
+        | x :: rd' => specBody r rd' (setxSpec s k v e x.isSome)
   | .sleep _ :: r, rd, s => specBody r rd s
   | .raise :: _, _, _ => .raised
   | .nestIn _ :: r, rd, s => specBody r rd s
